@@ -63,6 +63,68 @@ def engine_step_sharded(run, binary, filters, nshards, flavour='n'):
                 else: run.per_check[k] = v
             run.rules.update(sub.rules); run.samples += sub.samples[:3]; run.notes += sub.notes; run.fails += sub.fails
 
+def fuzz_step(run, total_runs, jobs):
+    """libFuzzer on ParseNumber / ParseEnumeration with the differential oracles inside the target; half of the jobs start from an empty
+    corpus, half from the accepted spellings and a few numbers; only crash- artefacts count"""
+    import concurrent.futures as cf, shutil, glob
+    exes = D.build_or_violation(run, ['fuzz_parsers'], 'f')
+    exes_n = D.build_or_violation(run, ['introspect'], 'n')
+    if not exes or not exes_n: return
+    D.factors_file(exes_n['introspect'])
+    intro = json.load(open(os.path.join(D.tree_dir(), 'introspect.json')))
+    work = os.path.join(D.tree_dir(), 'fuzz-%s-%d' % (run.prop, os.getpid()))
+    shutil.rmtree(work, ignore_errors=True); os.makedirs(work)
+    seeded = os.path.join(work, 'seed-corpus'); os.makedirs(seeded)
+    n = 0
+    for ti, e in enumerate(intro['enumerations']):
+        for sp, _ in e['spellings'][::3]:
+            open(os.path.join(seeded, 's%05d' % n), 'wb').write(bytes([3 + ti]) + sp.encode('utf8')); n += 1
+    for k, t in enumerate(['1.5', '-2e10', '0x1p-3', 'inf', 'nan', '1e400', '  7', '1e-320', '12abc', '.5e+3']):
+        for sel in range(3): open(os.path.join(seeded, 'n%d_%d' % (k, sel)), 'wb').write(bytes([sel]) + t.encode()); n += 1
+    dic = os.path.join(work, 'dict.txt')
+    atoms = set()
+    for e in intro['enumerations']:
+        for sp, _ in e['spellings']:
+            for a in sp.replace('/', ' ').replace('·', ' ').replace('*', ' ').replace('^', ' ').split(): atoms.add(a)
+    with open(dic, 'w') as f:
+        for a in sorted(atoms)[:600]:
+            f.write('"' + ''.join('\\x%02x' % b for b in a.encode('utf8')) + '"\n')
+        for a in ['e+', 'e-', '0x', 'inf', 'nan', '^2', '^-1', '\\xc2\\xb7', '/', '*', '(', ')']: f.write('"%s"\n' % a)
+    def one(k):
+        corpus = os.path.join(work, 'corpus%d' % k); os.makedirs(corpus)
+        if k % 2 == 1:
+            for fn in os.listdir(seeded): shutil.copy(os.path.join(seeded, fn), corpus)
+        art = os.path.join(work, 'artifacts%d' % k) + os.sep; os.makedirs(art)
+        stats = os.path.join(work, 'stats%d.json' % k)
+        env = dict(os.environ, VERIF_FUZZ_STATS=stats, ASAN_OPTIONS='detect_leaks=0:abort_on_error=0', UBSAN_OPTIONS='print_stacktrace=1:halt_on_error=1')
+        cmd = [exes['fuzz_parsers'], '-seed=%d' % (D.SEED * 100 + k + 1), '-runs=%d' % max(1, total_runs // jobs), '-max_len=64', '-dict=' + dic, '-artifact_prefix=' + art, '-print_final_stats=1', '-timeout=25', '-rss_limit_mb=2048', corpus]
+        p = subprocess.run(cmd, stdout=subprocess.PIPE, stderr=subprocess.PIPE, text=True, errors='replace', env=env)
+        st = json.load(open(stats)) if os.path.exists(stats) else None
+        execs = 0
+        for line in p.stderr.splitlines():
+            if line.startswith('stat::number_of_executed_units:'): execs = int(line.split()[-1])
+        crashes = [f for f in glob.glob(art + '*') if os.path.basename(f).startswith(('crash-', 'leak-'))]
+        msg = next((l for l in p.stderr.splitlines() if l.startswith('ORACLE-FAILURE') or 'runtime error:' in l or 'ERROR: AddressSanitizer' in l or 'uncaught exception' in l.lower() or 'terminate called' in l), '')
+        return dict(k=k, execs=execs, stats=st, crashes=crashes, msg=msg, corpus=len(os.listdir(corpus)), rc=p.returncode, seeded=(k % 2 == 1))
+    with cf.ThreadPoolExecutor(max_workers=min(jobs, 16)) as ex: results = list(ex.map(one, range(jobs)))
+    keep = os.path.join(D.out_root(), 'replays', run.prop)
+    tot = sum(r['execs'] for r in results); best = max((r['stats'] or {}).get('distinct_payloads', 0) for r in results)
+    run.evaluations += tot; run.nontrivial += best
+    run.per_check['fuzz.parsers'] = dict(executions=tot, jobs=jobs, distinct_payloads_largest_job=best, final_corpus_sizes=[r['corpus'] for r in results],
+                                         accepted_spellings_hit=sum((r['stats'] or {}).get('accepted_spellings', 0) for r in results), numbers_parsed=sum((r['stats'] or {}).get('parsed_numbers', 0) for r in results))
+    run.classes['fuzz:executions-from-empty-corpus'] = sum(r['execs'] for r in results if not r['seeded']); run.classes['fuzz:executions-from-seeded-corpus'] = sum(r['execs'] for r in results if r['seeded'])
+    run.rules['fuzz.parsers'] = ('libFuzzer (coverage-guided, ASan+UBSan) on arbitrary bytes: byte 0 selects ParseNumber<float|double|long double> or ParseEnumeration<E> of one of the 39 enumeration types; oracle inside the target: never throws, '
+                                 'ParseNumber has a value iff strto* consumes >= 1 byte without ERANGE (identical bits), ParseEnumeration has a value iff the bytes are a key of the live spelling table; half the jobs from an empty corpus, half '
+                                 'seeded with spellings and numbers; dictionary of unit atoms; distinct non-trivial = distinct non-empty payloads of the largest job (hash set inside the target)')
+    run.samples.append(dict(check='fuzz.parsers', executions=tot, jobs=[dict(seeded=r['seeded'], executions=r['execs'], final_corpus=r['corpus'], stats=r['stats']) for r in results[:4]]))
+    for r in results:
+        if r['rc'] != 0 and not r['crashes']:
+            run.notes.append('fuzz job %d ended with exit %s without a crash artefact (%s): not counted' % (r['k'], r['rc'], r['msg'][:200]))
+        for c in r['crashes'][:3]:
+            os.makedirs(keep, exist_ok=True); dst = os.path.join(keep, os.path.basename(c)); shutil.copy(c, dst)
+            run.fails.append(dict(kind='fuzz', key='fuzz/' + (r['msg'][:120] or os.path.basename(c)), artifact=dst, msg='libFuzzer artefact %s: %s' % (os.path.basename(c), r['msg'] or 'crash')))
+    shutil.rmtree(work, ignore_errors=True)
+
 LEXICON = 'the unit lexicon of DESIGN.md Appendix A (SI brochure, NIST SP 811, 1959 yard-pound agreement)'
 
 @plan('C01')
@@ -171,6 +233,7 @@ def c08(run):
     exes = D.build_or_violation(run, ['introspect'])
     if exes: D.run_symx(run, 'C08', exes['introspect'])
     engine_step(run, 'enums', ['C08'])
+    if run.tier == 'thorough': fuzz_step(run, 20000000, 16)
     run.rules['symx.C08'] = ('exhaustive: every enumerator of the 39 declarations (names read from the enum declarations) has a unique abbreviation, streams as it, parses back, has both conversion rows; '
                              'every key of the live spelling tables parsed through ParseEnumeration denotes (lexicon, exact) the magnitude of the enumerator it parses to; non-trivial = spelling differs from the abbreviation')
     run.assumptions += ['the unit lexicon of DESIGN.md Appendix A']
@@ -212,7 +275,85 @@ def c19(run):
         run.fails.append(dict(kind='c19', key=v['key'], msg=v['msg'], program=dst))
     shutil.rmtree(work, ignore_errors=True)
 
+ENGINE_BINARIES = [('units', True), ('qty', False), ('rel', False), ('math', False), ('dir', False), ('model', False), ('dims', False), ('enums', False)]
+SAN_SKIP = 'c09.grid,c15.float_sweep,c15.float_all,c06.box,c14.base_dimensions'   # exhaustive sweeps: covered (in full) by the unsanitised checks
+
+def valgrind_step(run, binaries, scale):
+    """memcheck on the unsanitised engines (stands in for MSan: no instrumented libstdc++ here): only memcheck errors count; valgrind
+    computes long double in 64-bit precision, so the engines' own bit-exact oracles are not meaningful under it and are ignored"""
+    import concurrent.futures as cf
+    exes = D.build_or_violation(run, [b for b, _ in binaries] + ['introspect'], 'n')
+    if not exes: return
+    fa = D.factors_file(exes['introspect'])
+    def one(b):
+        log = os.path.join(D.tree_dir(), 'valgrind.%s.%d.log' % (b, os.getpid())); out = log + '.json'
+        env = dict(os.environ, VERIF_SEED=str(D.SEED), VERIF_OUT=out, VERIF_SCALE=str(scale), VERIF_SKIP=SAN_SKIP, VERIF_FACTORS=fa)
+        p = subprocess.run(['valgrind', '--tool=memcheck', '--undef-value-errors=yes', '--leak-check=no', '--error-limit=no', '--log-file=' + log, exes[b], 'run', 'quick'], stdout=subprocess.PIPE, stderr=subprocess.PIPE, text=True, errors='replace', env=env)
+        txt = open(log, errors='replace').read() if os.path.exists(log) else ''
+        n = 0; evals = 0
+        for line in txt.splitlines():
+            if 'ERROR SUMMARY:' in line: n = int(line.split('ERROR SUMMARY:')[1].split()[0])
+        if os.path.exists(out):
+            try: evals = json.load(open(out))['evaluations']
+            except Exception: pass
+            os.remove(out)
+        first = ''
+        if n:
+            ls = txt.splitlines()
+            for i, line in enumerate(ls):
+                if 'uninitialised' in line or 'Invalid read' in line or 'Invalid write' in line or 'Invalid free' in line:
+                    first = ' | '.join(x.split('==', 2)[-1].strip() for x in ls[i:i + 8]); break
+        if os.path.exists(log): os.remove(log)
+        return b, n, evals, first
+    with cf.ThreadPoolExecutor(max_workers=8) as ex:
+        for b, n, evals, first in ex.map(one, [b for b, _ in binaries]):
+            run.evaluations += evals; run.classes['valgrind:' + b + ':evaluations'] = evals
+            if n: run.fails.append(dict(kind='valgrind', key='valgrind/' + b + '/' + first[:100], binary=b, msg='valgrind memcheck reports %d error(s) in the %s engine: %s' % (n, b, first[:800])))
+    run.rules['valgrind'] = 'the unsanitised engines re-run under valgrind memcheck at a small fraction of the quick counts: any use of an uninitialised value, invalid read or write is a failure'
+
+@plan('C20')
+def c20(run):
+    import concurrent.futures as cf, threading
+    quick = run.tier == 'quick'
+    scale = 0.25 if quick else 2.0
+    names = [b for b, _ in ENGINE_BINARIES]
+    exes = D.build_or_violation(run, names, 's')
+    exes_n = D.build_or_violation(run, ['introspect'], 'n')
+    if exes and exes_n:
+        fa = D.factors_file(exes_n['introspect'])
+        def one(b):
+            sub = D.Run(run.prop, 'quick')
+            D.run_engine(sub, b, exes[b], [], flavour='s', scale=scale, extra_env={'VERIF_FACTORS': fa, 'VERIF_SKIP': SAN_SKIP}, tag='.' + b)
+            return sub
+        with cf.ThreadPoolExecutor(max_workers=8) as ex:
+            for sub in ex.map(one, names):
+                run.evaluations += sub.evaluations; run.nontrivial += sub.nontrivial
+                for k, v in sub.classes.items(): run.classes[k] = run.classes.get(k, 0) + v
+                run.per_check.update(sub.per_check); run.samples += sub.samples[:4]; run.notes += sub.notes; run.fails += sub.fails
+    run.rules['san'] = ('every rapidcheck property of C01-C18 (all engines) re-run in a build with AddressSanitizer, UndefinedBehaviorSanitizer (incl. enum, signed-integer-overflow, bounds, null, float-cast-overflow; no recovery) and '
+                        '_GLIBCXX_ASSERTIONS, at %s of the quick counts; every registry call is wrapped: any exception other than std::bad_alloc is a failure; a sanitizer abort is attributed to the case being run' % ('25%' if quick else '200%'))
+    # the parsers on arbitrary bytes: rapidcheck (normal flavour) + libFuzzer
+    engine_step(run, 'enums', ['C20'])
+    fuzz_step(run, 300000 if quick else 30000000, 4 if quick else 16)
+    valgrind_step(run, [('qty', False), ('rel', False), ('model', False)] if quick else ENGINE_BINARIES, 0.002 if quick else 0.02)
+    run.assumptions += ['"no undefined behaviour" is bounded by what ASan, UBSan, libstdc++ assertions and valgrind memcheck can observe on the generated cases', 'MSan is not usable here (no instrumented libstdc++): valgrind memcheck stands in for it']
+
+def replay_fuzz(f, path):
+    exes = D.build(['fuzz_parsers'], 'f')
+    env = dict(os.environ, ASAN_OPTIONS='detect_leaks=0', UBSAN_OPTIONS='halt_on_error=1')
+    p = subprocess.run([exes['fuzz_parsers'], f['artifact']], stdout=subprocess.PIPE, stderr=subprocess.PIPE, text=True, errors='replace', env=env)
+    msg = next((l for l in p.stderr.splitlines() if l.startswith('ORACLE-FAILURE') or 'runtime error:' in l or 'ERROR: AddressSanitizer' in l), '')
+    print('replay: exit %s %s' % (p.returncode, msg))
+    if p.returncode != 0:
+        print('VIOLATION property=%s replay=%s' % (f['property'], path)); return 1
+    return 0
+
 def replay_other(f, path):
+    if f.get('kind') == 'fuzz': return replay_fuzz(f, path)
+    if f.get('kind') == 'valgrind':
+        run = D.Run(f['property'], 'quick'); valgrind_step(run, [(f['binary'], False)], 0.002)
+        if run.fails: print('replay: ' + run.fails[0]['msg'][:500]); print('VIOLATION property=%s replay=%s' % (f['property'], path)); return 1
+        print('replay: clean now'); return 0
     if f.get('kind') == 'c19':
         vt = __import__('shutil').which('python3-vt') or sys.executable
         p = subprocess.run([vt, os.path.join(D.VERIF, 'tools', 'c19.py'), '--replay', f['program'], D.REPO], stdout=subprocess.PIPE, stderr=subprocess.STDOUT, text=True)
